@@ -50,7 +50,18 @@ pub async fn history(a: &mut LocalAccount, seed: u64, with_attachment: bool) -> 
             let path = dir.join(format!("attachment-{k}.bin")); std::fs::write(&path, &body)?;
             let secret: sos_vault::secret::Secret = path.clone().try_into()?;
             let meta = sos_vault::secret::SecretMeta::new(format!("attachment-{k}"), secret.kind());
-            a.create_secret(meta, secret, AccessOptions { folder: Some(if k == 1 { f1 } else { default }), ..Default::default() }).await?;
+            let folder = if k == 1 { f1 } else { default };
+            let made = a.create_secret(meta, secret, AccessOptions { folder: Some(folder), ..Default::default() }).await?;
+            // the first file secret also carries an attachment field: a second external file under the SAME secret id
+            if k == 0 {
+                let body2: Vec<u8> = (0..rng.range(10, 3000)).map(|_| rng.below(256) as u8).collect();
+                let path2 = dir.join("attached-to-first.bin"); std::fs::write(&path2, &body2)?;
+                let att: sos_vault::secret::Secret = path2.try_into()?;
+                let att_meta = sos_vault::secret::SecretMeta::new("attached-field".into(), att.kind());
+                let (mut row, _) = a.read_secret(&made.id, Some(&folder)).await?;
+                row.secret_mut().add_field(sos_vault::secret::SecretRow::new(sos_core::SecretId::new_v4(), att_meta, att));
+                a.update_secret(&made.id, row.meta().clone(), Some(row.secret().clone()), AccessOptions { folder: Some(folder), ..Default::default() }).await?;
+            }
         }
         let _ = std::fs::remove_dir_all(&dir);
     }
